@@ -35,7 +35,7 @@ ASSUMPTIONS = [
 
 ARCH_EXC = ('SVCException', 'SMCException', 'DataAbortException', 'HypTrapException', 'UndefinedInstructionException',
             'EndOfInstruction')
-SCRATCH = {'cpu.opcode', 'cpu.opcode_len'} | {'chg[%d]' % i for i in range(16)}
+SCRATCH = {'cpu.opcode', 'cpu.opcode_len', 'it_state_restored'} | {'chg[%d]' % i for i in range(16)}
 USER_WRITABLE = {'R.PC', 'cpsr', 'mem', 'event_register', 'cpu.is_wait_for_event', 'cpu.is_wait_for_interrupt',
                  'cpu.run'} | {'R.R%dusr' % i for i in range(13)} | {'R.SPusr', 'R.LRusr'} | SCRATCH
 ABORT_REGS = {'dfsr', 'dfar', 'hsr', 'hdfar', 'hpfar'}
